@@ -37,10 +37,23 @@ def showDec (p : Plans) (fam : String) (r : Res Val) : String :=
   | .abort => "abort\tallocs"
   | .outOfFuel => "out-of-fuel\tallocs"
 
+/-- `<hex>` optionally followed by `~<count>:<bb>` (`count` more copies of the byte `bb`): buffers far larger than the value -/
+def bytesOfHexRL (s : String) : Option (List Byte) :=
+  match s.splitOn "~" with
+  | [h] => bytesOfHex h
+  | [h, r] =>
+    (match r.splitOn ":" with
+     | [n, b] =>
+       (match bytesOfHex h, n.toNat?, bytesOfHex b with
+        | some bs, some n, some [x] => some (bs ++ List.replicate n x)
+        | _, _, _ => none)
+     | _ => none)
+  | _ => none
+
 def decRequest (st : DState) (f : List String) : String :=
   match f with
   | [k, fam, ty, lead, hex] =>
-    (match k.toNat?, lead.toNat?, bytesOfHex hex with
+    (match k.toNat?, lead.toNat?, bytesOfHexRL hex with
      | some k, some lead, some bs =>
        (match st[k]? with
         | some (some l) =>
